@@ -224,6 +224,31 @@ def _rigid_body(rng, viol, worst, ev):
                      "msg": "RigidBody(%s).aabb() raised %s: %s" % (which, type(e).__name__, str(e)[:200])})
         return
     ev["rigid_body_checks"] += 1
+    body_bounds0 = np.c_[rb.vertices_.min(axis=0), rb.vertices_.max(axis=0)]
+    # history clause: the box (and the AABB tree behind it) must follow the body when it is re-expressed in
+    # another frame (contact queries do that implicitly with their first argument)
+    try:
+        T2 = np.ascontiguousarray(O.pose(gen.rand_rot(rng), gen.center(rng, far_ok=False)))
+        rb.express_in(T2)
+        box2 = np.asarray(rb.aabb(), float)
+        body_bounds = np.c_[rb.vertices_.min(axis=0), rb.vertices_.max(axis=0)]
+        L2 = max(1.0, float(np.abs(rb.vertices_).max()))
+        d2 = np.abs(box2 - body_bounds).max() / L2 if box2.shape == (3, 2) else float("inf")
+        ev["rigid_body_reexpress_checks"] = ev.get("rigid_body_reexpress_checks", 0) + 1
+        worst["rigid_after_express_in/L"] = max(worst.get("rigid_after_express_in/L", 0.0), float(d2))
+        if not d2 <= TOL:
+            viol.append({"key": {"fn": "RigidBody.aabb", "kind": "stale-after-express_in", "body": which}, "err": float(d2),
+                         "msg": "RigidBody(%s): aabb() after express_in() differs from the bounds of the re-expressed vertices by %.3g*L" % (which, d2)})
+        from distance3d.hydroelastic_contact import tetrahedral_mesh_aabbs
+        tree = rb.aabb_tree
+        leaf = np.asarray(tree.aabbs[:len(rb.tetrahedra_)], float)
+        ref_leaf = np.asarray(tetrahedral_mesh_aabbs(rb.tetrahedra_points), float)
+        if leaf.shape != ref_leaf.shape or np.abs(leaf - ref_leaf).max() > TOL * L2:
+            viol.append({"key": {"fn": "RigidBody.aabb_tree", "kind": "stale-after-express_in", "body": which}, "err": None,
+                         "msg": "RigidBody(%s): aabb_tree after express_in() does not hold the boxes of the re-expressed tetrahedra" % which})
+    except Exception as e:  # noqa: BLE001
+        viol.append({"key": {"fn": "RigidBody.aabb", "kind": "exception", "exc": type(e).__name__, "body": which}, "err": None,
+                     "msg": "RigidBody(%s) express_in/aabb raised %s: %s" % (which, type(e).__name__, str(e)[:200])})
     ref = np.c_[W2.min(axis=0), W2.max(axis=0)]
     L = max(1.0, float(np.abs(W2).max()))
     pose_identity = bool(np.allclose(T, np.eye(4), atol=0, rtol=0))
@@ -233,5 +258,5 @@ def _rigid_body(rng, viol, worst, ev):
     if not diff <= TOL:
         viol.append({"key": {"fn": "RigidBody.aabb", "kind": "not-world-frame-bounds", "pose_identity": pose_identity,
                              "equals_body_frame_bounds": bool(box.shape == (3, 2) and np.abs(
-                                 box - np.c_[rb.vertices_.min(axis=0), rb.vertices_.max(axis=0)]).max() <= TOL * L)},
+                                 box - body_bounds0).max() <= TOL * L)},
                      "err": float(diff), "msg": "RigidBody(%s).aabb() differs from world-frame vertex bounds by %.3g*L" % (which, diff)})
